@@ -20,27 +20,66 @@
 #include <algorithm>
 using namespace muscle;
 
+// Key / value type.  The default build uses int / int; harness/htc.cpp builds the same program with HT_CANARY defined: keys and values are
+// an OWNING, NON-TRIVIAL type (each object owns a heap cell: the table has to construct, copy, reset-to-default and destroy them; ASan sees
+// every double free / use after free / read of a destroyed object).  A default-constructed Canary reads as 0 = "none".
+#ifdef HT_CANARY
+struct Canary {
+   int * p;
+   Canary() : p(NULL) {}
+   explicit Canary(int v) : p(new int(v)) {}
+   Canary(const Canary & r) : p(r.p ? new int(*r.p) : NULL) {}
+   Canary(Canary && r) : p(r.p) {r.p = NULL;}
+   Canary & operator=(const Canary & r) {if (this != &r) {int * n = r.p ? new int(*r.p) : NULL; delete p; p = n;} return *this;}
+   Canary & operator=(Canary && r) {if (this != &r) {delete p; p = r.p; r.p = NULL;} return *this;}
+   ~Canary() {delete p; p = NULL;}
+   int Get() const {return p ? *p : 0;}
+   bool operator==(const Canary & r) const {return Get() == r.Get();}
+   bool operator!=(const Canary & r) const {return Get() != r.Get();}
+   bool operator<(const Canary & r) const {return Get() < r.Get();}
+   bool operator>(const Canary & r) const {return Get() > r.Get();}
+};
+typedef Canary KT; typedef Canary VT;
+static inline KT MkK(int i) {return Canary(i);}
+static inline int KI(const KT & k) {return k.Get();}
+#else
+typedef int KT; typedef int VT;
+static inline KT MkK(int i) {return i;}
+static inline int KI(const KT & k) {return k;}
+#endif
+static inline VT MkV(int i) {return MkK(i);}
+static inline int VI(const VT & v) {return KI(v);}
+
 // Keys of the model are 1..K; the real key is model key + KOFF (order preserving).  KOFF = 1621770656 makes model key 2 the int whose
 // default hash code (CalculateHashCode of its 4 bytes) is exactly 0xFFFFFFFF = MUSCLE_HASHTABLE_INVALID_HASH_CODE, the table's guard value.
 static int KOFF = 0;
 static inline int RK(long m) {return (m > 0) ? (int)(m+KOFF) : (int) m;}
 static inline long MK(int k) {return (k > 0) ? ((long) k)-KOFF : (long) k;}
+#ifdef HT_CANARY
+struct DefHash {     // the default functor of the int inside
+   uint32 operator()(const KT & k) const {const int i = KI(k); return PODHashFunctor<int>()(i);}
+   bool AreKeysEqual(const KT & a, const KT & b) const {return a == b;}
+};
+#else
+typedef PODHashFunctor<int> DefHash;
+#endif
 struct BadHash {     // every key of the model in one bucket, together with the last entry of the prefill block
-   uint32 operator()(const int & k) const {return (k >= -1) ? 12345u : (((uint32) k)*2654435761u);}
-   bool AreKeysEqual(const int & a, const int & b) const {return a == b;}
+   uint32 operator()(const KT & kk) const {const int k = KI(kk); return (k >= -1) ? 12345u : (((uint32) k)*2654435761u);}
+   bool AreKeysEqual(const KT & a, const KT & b) const {return a == b;}
 };
 struct EdgeHash {    // boundary hash codes by construction: the guard value 0xFFFFFFFF (remapped to 0 by the table), 0, 0xFFFFFFFE, 1 - some shared
-   uint32 operator()(const int & k) const
+   uint32 operator()(const KT & kk) const
    {
       static const uint32 T[7] = {0u, 0xFFFFFFFFu, 0u, 0xFFFFFFFEu, 1u, 0xFFFFFFFFu, 0xFFFFFFFEu};
+      const int k = KI(kk);
       if (k > 0) return T[MK(k)%7];
       return (k == -1) ? 0xFFFFFFFFu : ((k == -2) ? 0u : ((k == -3) ? 0xFFFFFFFEu : (((uint32) k)*2654435761u)));
    }
-   bool AreKeysEqual(const int & a, const int & b) const {return a == b;}
+   bool AreKeysEqual(const KT & a, const KT & b) const {return a == b;}
 };
 struct ModHash {     // distinct hash codes that collide modulo every small table size (840 = lcm(1..8)) and modulo 2^k
-   uint32 operator()(const int & k) const {return (k > 0) ? ((uint32) MK(k))*840u*65536u : (((uint32) k)*2654435761u);}
-   bool AreKeysEqual(const int & a, const int & b) const {return a == b;}
+   uint32 operator()(const KT & kk) const {const int k = KI(kk); return (k > 0) ? ((uint32) MK(k))*840u*65536u : (((uint32) k)*2654435761u);}
+   bool AreKeysEqual(const KT & a, const KT & b) const {return a == b;}
 };
 
 static const int MAXIT = 3;
@@ -50,14 +89,14 @@ enum {O_Put, O_PutPrev, O_PutIfAbsent, O_GetOrPut, O_PutOrRemove, O_PutAtFront, 
       O_GetAndMoveToFront, O_GetAndMoveToBack, O_Remove, O_RemoveGet, O_RemoveFirst, O_RemoveLast,
       O_MoveToFront, O_MoveToBack, O_MoveToBefore, O_MoveToBehind, O_MoveToPosition,
       O_SortByKey, O_SortByValue, O_SortSelf, O_Reposition, O_Swap, O_Clear, O_Destroy, O_AssignFrom, O_AssignTo, O_PutAll, O_MoveToTable,
-      O_RemoveAll, O_Intersect, O_EnsureSize, O_ShrinkToFit, O_SetAutoSort, O_EnsureCanPut,
+      O_RemoveAll, O_Intersect, O_EnsureSize, O_ShrinkToFit, O_SetAutoSort, O_EnsureCanPut, O_CopyToTable, O_Self,
       O_Get, O_IndexOfKey, O_IndexOfValue, O_GetKeyAt, O_GetValueAt, O_GetFirstKey, O_GetLastKey, O_GetKeyBefore, O_GetKeyAfter, O_ContainsValue, O_NumItems, O_IsEqualTo,
       O_ItNew, O_ItNewAt, O_ItAdv, O_ItRet, O_ItFlip, O_ItDel, O_ItCopy, NUM_OPS};
 static const char * OPN[NUM_OPS] = {"Put", "PutPrev", "PutIfAbsent", "GetOrPut", "PutOrRemove", "PutAtFront", "PutAtBack", "PutBefore", "PutBehind", "PutAtPosition",
       "GetAndMoveToFront", "GetAndMoveToBack", "Remove", "RemoveGet", "RemoveFirst", "RemoveLast",
       "MoveToFront", "MoveToBack", "MoveToBefore", "MoveToBehind", "MoveToPosition",
       "SortByKey", "SortByValue", "SortSelf", "Reposition", "Swap", "Clear", "Destroy", "AssignFrom", "AssignTo", "PutAll", "MoveToTable",
-      "RemoveAll", "Intersect", "EnsureSize", "ShrinkToFit", "SetAutoSort", "EnsureCanPut",
+      "RemoveAll", "Intersect", "EnsureSize", "ShrinkToFit", "SetAutoSort", "EnsureCanPut", "CopyToTable", "Self",
       "Get", "IndexOfKey", "IndexOfValue", "GetKeyAt", "GetValueAt", "GetFirstKey", "GetLastKey", "GetKeyBefore", "GetKeyAfter", "ContainsValue", "NumItems", "IsEqualTo",
       "ItNew", "ItNewAt", "ItAdv", "ItRet", "ItFlip", "ItDel", "ItCopy"};
 static int OpByName(const std::string & s) {for (int i=0; i<NUM_OPS; i++) if (s == OPN[i]) return i; return -1;}
@@ -72,32 +111,31 @@ static const bool HUGE_ALLOC_OK = false;    // a plain build would really try to
 #endif
 static long St(const status_t & r) {return r.IsOK() ? 1 : ((r == B_DATA_NOT_FOUND) ? 0 : ((r == B_BAD_ARGUMENT) ? -1 : NA));}
 
-// Reposition() exists in the sorting classes only
-template<class H> static status_t DoReposition(Hashtable<int,int,H> & t, int k) {return t.ContainsKey(k) ? B_NO_ERROR : B_DATA_NOT_FOUND;}
-template<class C, class H> static status_t DoReposition(OrderedKeysHashtable<int,int,C,H> & t, int k) {return t.Reposition(k);}
-template<class C, class H> static status_t DoReposition(OrderedValuesHashtable<int,int,C,H> & t, int k) {return t.Reposition(k);}
-
-// SetAutoSortEnabled() exists in the sorting classes only
-template<class H> static void DoSetAutoSort(Hashtable<int,int,H> &, bool, bool) {}
-template<class C, class H> static void DoSetAutoSort(OrderedKeysHashtable<int,int,C,H> & t, bool on, bool sortNow) {t.SetAutoSortEnabled(on, sortNow);}
-template<class C, class H> static void DoSetAutoSort(OrderedValuesHashtable<int,int,C,H> & t, bool on, bool sortNow) {t.SetAutoSortEnabled(on, sortNow);}
+// Reposition() / SetAutoSortEnabled() exist in the sorting classes only
+template<class H> static status_t DoReposition(Hashtable<KT,VT,H> & t, const KT & k) {return t.ContainsKey(k) ? B_NO_ERROR : B_DATA_NOT_FOUND;}
+template<class C, class H> static status_t DoReposition(OrderedKeysHashtable<KT,VT,C,H> & t, const KT & k) {return t.Reposition(k);}
+template<class C, class H> static status_t DoReposition(OrderedValuesHashtable<KT,VT,C,H> & t, const KT & k) {return t.Reposition(k);}
+template<class H> static void DoSetAutoSort(Hashtable<KT,VT,H> &, bool, bool) {}
+template<class C, class H> static void DoSetAutoSort(OrderedKeysHashtable<KT,VT,C,H> & t, bool on, bool sortNow) {t.SetAutoSortEnabled(on, sortNow);}
+template<class C, class H> static void DoSetAutoSort(OrderedValuesHashtable<KT,VT,C,H> & t, bool on, bool sortNow) {t.SetAutoSortEnabled(on, sortNow);}
 
 struct ItObs {int h, k, v; ItObs() : h(-1), k(0), v(0) {} bool operator==(const ItObs & r) const {return (h == r.h)&&((h != 1)||((k == r.k)&&(v == r.v)));}};
 typedef std::vector<std::pair<int,int> > KV;
 
 template<class TableT, class HashF> struct Rig
 {
-   typedef HashtableIterator<int,int,HashF> It;
+   typedef HashtableIterator<KT,VT,HashF> It;
    TableT * tab[2]; bool blk[2]; It * it[MAXIT]; bool itBwd[MAXIT];
    uint32 P, slack; TableT * tmpl; std::string err;
    bool autoOn;    // SetAutoSortEnabled state of the table object tab[0] (sorting classes)
+   uint32 alias, calls;   // alias != 0: key / value arguments are, whenever possible, references INTO the table's own storage or into an iterator
 
-   Rig(uint32 p, uint32 s) : P(p), slack(s), tmpl(NULL), autoOn(true) {tab[0] = tab[1] = NULL; blk[0] = blk[1] = false; for (int i=0; i<MAXIT; i++) {it[i] = NULL; itBwd[i] = false;}}
+   Rig(uint32 p, uint32 s) : P(p), slack(s), tmpl(NULL), autoOn(true), alias(0), calls(0) {tab[0] = tab[1] = NULL; blk[0] = blk[1] = false; for (int i=0; i<MAXIT; i++) {it[i] = NULL; itBwd[i] = false;}}
    void Build()
    {
       tmpl = new TableT;
       if ((P > 0)||(slack > 0)) (void) tmpl->EnsureSize(P+slack, true);
-      for (uint32 i=0; i<P; i++) (void) tmpl->Put(((int) i)-((int) P), ((int) i)-((int) P));
+      for (uint32 i=0; i<P; i++) (void) tmpl->Put(MkK(((int) i)-((int) P)), MkV(((int) i)-((int) P)));
    }
    void Drop() {for (int i=0; i<MAXIT; i++) {delete it[i]; it[i] = NULL; itBwd[i] = false;} delete tab[0]; delete tab[1]; tab[0] = tab[1] = NULL;}
    void Reset() {Drop(); tab[0] = new TableT(*tmpl); tab[1] = new TableT; blk[0] = (P > 0); blk[1] = false; err.clear(); autoOn = true;}
@@ -123,30 +161,50 @@ template<class TableT, class HashF> struct Rig
    static long Neg0(long k) {return (k < 0) ? 0 : k;}
    static uint32 JunkFlags(long slot) {return (slot == 2) ? 0xFFFFFFFCu : 0u;}     // the flags parameter is a bit chord: iterators in slot 2 get every undefined bit set
 
+   // Aliasing arguments: a key argument becomes a reference to the table's own key object of that entry (GetKey) or to the key an iterator is
+   // showing (iter.GetKey(): table storage or the iterator's scratch copy); a value argument a reference to the stored value of some entry
+   // that holds that value.  Which one, if any, is decided by a counter so that runs are reproducible.
+   bool Dice(uint32 n) {calls = calls*1664525u+1013904223u; return (alias != 0)&&(((calls>>16)%n) != 0);}
+   const KT & KeyArg(TableT & t, const KT & own)
+   {
+      if (!Dice(3)) return own;
+      if (Dice(2)) for (int i=0; i<MAXIT; i++) if ((it[i])&&(it[i]->HasData())&&(it[i]->GetKey() == own)) return it[i]->GetKey();
+      const KT * k = t.GetKey(own); return k ? *k : own;
+   }
+   const VT & ValArg(TableT & t, const VT & own)
+   {
+      if (!Dice(3)) return own;
+      if (Dice(2)) for (int i=0; i<MAXIT; i++) if ((it[i])&&(it[i]->HasData())&&(it[i]->GetValue() == own)) return it[i]->GetValue();
+      const KT * k = t.GetFirstKeyWithValue(own); const VT * v = k ? t.Get(*k) : NULL; return v ? *v : own;
+   }
+
    long Exec(int op, long a, long b, long c)
    {
-      TableT & t = *tab[0]; TableT & o = *tab[1]; const int ka = RK(a); const long p0 = (long) P0();
+      TableT & t = *tab[0]; TableT & o = *tab[1]; const long p0 = (long) P0();
+      const KT ownA = MkK(RK(a)), ownB = MkK(RK(b)); const VT ownVb = MkV((int) b), ownVc = MkV((int) c), ownVa = MkV((int) a);
+      const bool keyA = ((op <= O_MoveToPosition)&&(op != O_RemoveFirst)&&(op != O_RemoveLast))||(op == O_Reposition)||(op == O_MoveToTable)||(op == O_CopyToTable)||(op == O_Get)||(op == O_IndexOfKey)||(op == O_GetKeyBefore)||(op == O_GetKeyAfter);
+      const KT & ka = keyA ? KeyArg(t, ownA) : ownA;
       switch(op) {
-         case O_Put: return t.Put(ka, (int) b).IsOK() ? 1 : NA;
-         case O_PutPrev: {int prev = 0; bool rep = false; if (t.Put(ka, (int) b, prev, &rep).IsError()) return NA; return rep ? prev : 0;}
-         case O_PutIfAbsent: {int * v = t.PutIfNotAlreadyPresent(ka, (int) b); return v ? ((*v == (int) b) ? 1 : NA) : 0;}
-         case O_GetOrPut: {int * v = t.GetOrPut(ka, (int) b); return v ? *v : NA;}
-         case O_PutOrRemove: return t.PutOrRemove(ka, (int) b).IsOK() ? 1 : NA;
-         case O_PutAtFront: return t.PutAtFront(ka, (int) b).IsOK() ? 1 : NA;
-         case O_PutAtBack: return t.PutAtBack(ka, (int) b).IsOK() ? 1 : NA;
-         case O_PutBefore: {const int kb = RK(b); return t.PutBefore(ka, kb, (int) c).IsOK() ? 1 : NA;}
-         case O_PutBehind: {const int kb = RK(b); return t.PutBehind(ka, kb, (int) c).IsOK() ? 1 : NA;}
-         case O_PutAtPosition: return t.PutAtPosition(ka, IsBig(b) ? Big(b) : (uint32)(p0+b), (int) c).IsOK() ? 1 : NA;
-         case O_GetAndMoveToFront: {int v = 0; const status_t r = t.GetAndMoveToFront(ka, v); return r.IsOK() ? v : ((r == B_DATA_NOT_FOUND) ? 0 : NA);}
-         case O_GetAndMoveToBack:  {int v = 0; const status_t r = t.GetAndMoveToBack(ka, v);  return r.IsOK() ? v : ((r == B_DATA_NOT_FOUND) ? 0 : NA);}
+         case O_Put: return t.Put(ka, ValArg(t, ownVb)).IsOK() ? 1 : NA;
+         case O_PutPrev: {VT prev = VT(); bool rep = false; if (t.Put(ka, ValArg(t, ownVb), prev, &rep).IsError()) return NA; return rep ? VI(prev) : 0;}
+         case O_PutIfAbsent: {VT * v = t.PutIfNotAlreadyPresent(ka, ValArg(t, ownVb)); return v ? ((VI(*v) == (int) b) ? 1 : NA) : 0;}
+         case O_GetOrPut: {VT * v = t.GetOrPut(ka, ValArg(t, ownVb)); return v ? VI(*v) : NA;}
+         case O_PutOrRemove: return t.PutOrRemove(ka, (b == 0) ? ownVb : ValArg(t, ownVb)).IsOK() ? 1 : NA;
+         case O_PutAtFront: return t.PutAtFront(ka, ValArg(t, ownVb)).IsOK() ? 1 : NA;
+         case O_PutAtBack: return t.PutAtBack(ka, ValArg(t, ownVb)).IsOK() ? 1 : NA;
+         case O_PutBefore: return t.PutBefore(ka, KeyArg(t, ownB), ValArg(t, ownVc)).IsOK() ? 1 : NA;
+         case O_PutBehind: return t.PutBehind(ka, KeyArg(t, ownB), ValArg(t, ownVc)).IsOK() ? 1 : NA;
+         case O_PutAtPosition: return t.PutAtPosition(ka, IsBig(b) ? Big(b) : (uint32)(p0+b), ValArg(t, ownVc)).IsOK() ? 1 : NA;
+         case O_GetAndMoveToFront: {VT v = VT(); const status_t r = t.GetAndMoveToFront(ka, v); return r.IsOK() ? VI(v) : ((r == B_DATA_NOT_FOUND) ? 0 : NA);}
+         case O_GetAndMoveToBack:  {VT v = VT(); const status_t r = t.GetAndMoveToBack(ka, v);  return r.IsOK() ? VI(v) : ((r == B_DATA_NOT_FOUND) ? 0 : NA);}
          case O_Remove: return St(t.Remove(ka));
-         case O_RemoveGet: {int v = 0; const status_t r = t.Remove(ka, v); return r.IsOK() ? v : ((r == B_DATA_NOT_FOUND) ? 0 : NA);}
-         case O_RemoveFirst: {int k = 0; const status_t r = t.RemoveFirst(k); return r.IsOK() ? MK(k) : ((r == B_DATA_NOT_FOUND) ? 0 : NA);}
-         case O_RemoveLast: {if ((blk[0])&&(t.GetNumItems() == P)) return 0; int k = 0; const status_t r = t.RemoveLast(k); return r.IsOK() ? MK(k) : ((r == B_DATA_NOT_FOUND) ? 0 : NA);}
+         case O_RemoveGet: {VT v = VT(); const status_t r = t.Remove(ka, v); return r.IsOK() ? VI(v) : ((r == B_DATA_NOT_FOUND) ? 0 : NA);}
+         case O_RemoveFirst: {KT k = KT(); const status_t r = t.RemoveFirst(k); return r.IsOK() ? MK(KI(k)) : ((r == B_DATA_NOT_FOUND) ? 0 : NA);}
+         case O_RemoveLast: {if ((blk[0])&&(t.GetNumItems() == P)) return 0; KT k = KT(); const status_t r = t.RemoveLast(k); return r.IsOK() ? MK(KI(k)) : ((r == B_DATA_NOT_FOUND) ? 0 : NA);}
          case O_MoveToFront: return St(t.MoveToFront(ka));
          case O_MoveToBack: return St(t.MoveToBack(ka));
-         case O_MoveToBefore: return St(t.MoveToBefore(ka, RK(b)));
-         case O_MoveToBehind: return St(t.MoveToBehind(ka, RK(b)));
+         case O_MoveToBefore: return St(t.MoveToBefore(ka, KeyArg(t, ownB)));
+         case O_MoveToBehind: return St(t.MoveToBehind(ka, KeyArg(t, ownB)));
          case O_MoveToPosition: return St(t.MoveToPosition(ka, IsBig(b) ? Big(b) : (uint32)(p0+b)));
          case O_SortByKey: t.SortByKey(); return 0;
          case O_SortByValue: t.SortByValue(); return 0;
@@ -160,6 +218,15 @@ template<class TableT, class HashF> struct Rig
          case O_AssignTo: o = t; blk[1] = blk[0]; return 0;
          case O_PutAll: return t.Put(o).IsOK() ? 1 : NA;
          case O_MoveToTable: return St(t.MoveToTable(ka, o));
+         case O_CopyToTable: return St(t.CopyToTable(ka, o));
+         case O_Self: switch(a) {        // the table is its own argument
+            case 0: t = *tab[0]; return 0;
+            case 1: t.SwapContents(*tab[0]); return 0;
+            case 2: return t.Put(*tab[0]).IsOK() ? 1 : NA;
+            case 3: return (long) t.Remove(*tab[0]) - p0;
+            case 4: return (long) t.Intersect(*tab[0]);
+            case 5: return t.IsEqualTo(*tab[0], b != 0) ? 1 : 0;
+            default: return St(t.MoveToTable(KeyArg(t, ownB), *tab[0])); }
          case O_RemoveAll: return (long) t.Remove(o);
          case O_Intersect: return (long) t.Intersect(o);
          case O_EnsureSize: case O_ShrinkToFit: case O_EnsureCanPut: {
@@ -174,24 +241,24 @@ template<class TableT, class HashF> struct Rig
             if (op == O_EnsureSize) {const status_t r = t.EnsureSize((uint32)(p0+a), b != 0); if ((r.IsOK())&&(t.GetNumAllocatedItemSlots() < (uint32)(p0+a))) err = "EnsureSize(n) returned OK but fewer than n slots are allocated"; return r.IsOK() ? 1 : NA;}
             if (op == O_ShrinkToFit) {const status_t r = t.ShrinkToFit((uint32) a); if ((r.IsOK())&&(t.GetNumItems()+a > 0)&&(t.GetNumAllocatedItemSlots() != t.GetNumItems()+(uint32) a)) err = "ShrinkToFit(n) returned OK but slots != items+n"; return r.IsOK() ? 1 : NA;}
             const status_t r = t.EnsureCanPut((uint32) a); if ((r.IsOK())&&(t.GetNumAllocatedItemSlots() < t.GetNumItems()+(uint32) a)) err = "EnsureCanPut(n) returned OK but there is no room for n more"; return r.IsOK() ? 1 : NA;}
-         case O_Get: {const int * v = t.Get(ka); const long r = t.GetWithDefault(ka); if ((v != NULL) != t.ContainsKey(ka)) err = "Get / ContainsKey disagree"; if ((v)&&(*v != r)) err = "Get / GetWithDefault disagree"; return r;}
+         case O_Get: {const VT * v = t.Get(ka); const long r = VI(t.GetWithDefault(ka)); if ((v != NULL) != t.ContainsKey(ka)) err = "Get / ContainsKey disagree"; if ((v)&&(VI(*v) != r)) err = "Get / GetWithDefault disagree"; return r;}
          case O_IndexOfKey: {const long r = t.IndexOfKey(ka); return (r >= 0) ? (r-p0) : r;}
-         case O_IndexOfValue: {const long r = t.IndexOfValue((int) a, b != 0); return (r >= 0) ? (r-p0) : r;}
-         case O_GetKeyAt: {const uint32 ix = IsBig(a) ? Big(a) : (uint32)(p0+a); const int * k = t.GetKeyAt(ix); int k2 = 0; const status_t r2 = t.GetKeyAt(ix, k2);
+         case O_IndexOfValue: {const long r = t.IndexOfValue(ValArg(t, ownVa), b != 0); return (r >= 0) ? (r-p0) : r;}
+         case O_GetKeyAt: {const uint32 ix = IsBig(a) ? Big(a) : (uint32)(p0+a); const KT * k = t.GetKeyAt(ix); KT k2 = KT(); const status_t r2 = t.GetKeyAt(ix, k2);
                            if (((k != NULL) != t.IsIndexValid(ix))||((k != NULL) != r2.IsOK())||((k)&&(*k != k2))||((k)&&(t.GetKeyAtWithDefault(ix) != *k))||((!k)&&(r2 != B_BAD_ARGUMENT))) err = "GetKeyAt / GetKeyAt(retKey) / IsIndexValid / GetKeyAtWithDefault disagree";
-                           return k ? MK(*k) : 0;}
-         case O_GetValueAt: {const uint32 ix = IsBig(a) ? Big(a) : (uint32)(p0+a); const int * v = t.GetValueAt(ix); if ((v != NULL) != t.IsIndexValid(ix)) err = "GetValueAt / IsIndexValid disagree"; if (t.GetValueAtWithDefault(ix, 0) != (v ? *v : 0)) err = "GetValueAt / GetValueAtWithDefault disagree"; return v ? *v : 0;}
-         case O_GetFirstKey: {const int * k = t.GetFirstKey(); return k ? MK(*k) : 0;}
-         case O_GetLastKey: {const int * k = t.GetLastKey(); return k ? MK((int) Neg0(*k)) : 0;}
-         case O_GetKeyBefore: {const int * k = t.GetKeyBefore(ka); return k ? MK((int) Neg0(*k)) : 0;}
-         case O_GetKeyAfter: {const int * k = t.GetKeyAfter(ka); return k ? MK(*k) : 0;}
-         case O_ContainsValue: return t.ContainsValue((int) a) ? 1 : 0;
+                           return k ? MK(KI(*k)) : 0;}
+         case O_GetValueAt: {const uint32 ix = IsBig(a) ? Big(a) : (uint32)(p0+a); const VT * v = t.GetValueAt(ix); if ((v != NULL) != t.IsIndexValid(ix)) err = "GetValueAt / IsIndexValid disagree"; if (VI(t.GetValueAtWithDefault(ix, VT())) != (v ? VI(*v) : 0)) err = "GetValueAt / GetValueAtWithDefault disagree"; return v ? VI(*v) : 0;}
+         case O_GetFirstKey: {const KT * k = t.GetFirstKey(); return k ? MK(KI(*k)) : 0;}
+         case O_GetLastKey: {const KT * k = t.GetLastKey(); return k ? MK((int) Neg0(KI(*k))) : 0;}
+         case O_GetKeyBefore: {const KT * k = t.GetKeyBefore(ka); return k ? MK((int) Neg0(KI(*k))) : 0;}
+         case O_GetKeyAfter: {const KT * k = t.GetKeyAfter(ka); return k ? MK(KI(*k)) : 0;}
+         case O_ContainsValue: return t.ContainsValue(ValArg(t, ownVa)) ? 1 : 0;
          case O_NumItems: return ((long) t.GetNumItems())-p0;
          case O_IsEqualTo: return t.IsEqualTo(o, a != 0) ? 1 : 0;
          case O_ItNew: {It * n = new It(t, ((b != 0) ? HTIT_FLAG_BACKWARDS : 0)|JunkFlags(a)); it[a-1] = n; itBwd[a-1] = (b != 0);
-                        if ((b == 0)&&(blk[0])) for (uint32 i=0; i<P; i++) {if ((!n->HasData())||(n->GetKey() != ((int) i)-((int) P))) {err = "forward iterator does not walk the prefill block in order"; break;} (*n)++;}
+                        if ((b == 0)&&(blk[0])) for (uint32 i=0; i<P; i++) {if ((!n->HasData())||(KI(n->GetKey()) != ((int) i)-((int) P))) {err = "forward iterator does not walk the prefill block in order"; break;} (*n)++;}
                         return 0;}
-         case O_ItNewAt: it[a-1] = new It(t, RK(b), ((c != 0) ? HTIT_FLAG_BACKWARDS : 0)|JunkFlags(a)); itBwd[a-1] = (c != 0); return 0;
+         case O_ItNewAt: it[a-1] = new It(t, KeyArg(t, ownB), ((c != 0) ? HTIT_FLAG_BACKWARDS : 0)|JunkFlags(a)); itBwd[a-1] = (c != 0); return 0;
          case O_ItAdv: (*it[a-1])++; return 0;
          case O_ItRet: (*it[a-1])--; itBwd[a-1] = true; return 0;
          case O_ItFlip: it[a-1]->SetBackwards(!it[a-1]->IsBackwards()); itBwd[a-1] = true; return 0;
@@ -207,21 +274,21 @@ template<class TableT, class HashF> struct Rig
    {
       out.clear(); TableT & t = *tab[n]; const bool B = blk[n]; char buf[200];
       if (t.GetNumAllocatedItemSlots() < t.GetNumItems()) {err = "GetNumAllocatedItemSlots() < GetNumItems()"; return false;}
-      HashtableIterator<int,int,HashF> f;
-      if ((B)&&(!full)) {f = HashtableIterator<int,int,HashF>(t, -1, HTIT_FLAG_NOREGISTER); if ((!f.HasData())||(f.GetKey() != -1)||(f.GetValue() != -1)) {err = "last entry of the prefill block not found"; return false;} f++;}
+      It f;
+      if ((B)&&(!full)) {f = It(t, MkK(-1), HTIT_FLAG_NOREGISTER); if ((!f.HasData())||(KI(f.GetKey()) != -1)||(VI(f.GetValue()) != -1)) {err = "last entry of the prefill block not found"; return false;} f++;}
       else {
-         f = HashtableIterator<int,int,HashF>(t, HTIT_FLAG_NOREGISTER);
-         if (B) for (uint32 i=0; i<P; i++) {if ((!f.HasData())||(f.GetKey() != ((int) i)-((int) P))||(f.GetValue() != f.GetKey())) {snprintf(buf, sizeof(buf), "prefill block damaged at its entry %u (forward)", i); err = buf; return false;} f++;}
+         f = It(t, HTIT_FLAG_NOREGISTER);
+         if (B) for (uint32 i=0; i<P; i++) {if ((!f.HasData())||(KI(f.GetKey()) != ((int) i)-((int) P))||(VI(f.GetValue()) != KI(f.GetKey()))) {snprintf(buf, sizeof(buf), "prefill block damaged at its entry %u (forward)", i); err = buf; return false;} f++;}
       }
-      for (; f.HasData(); f++) {if (out.size() > 1000) {err = "forward iteration does not end"; return false;} out.push_back(std::make_pair((int) MK(f.GetKey()), f.GetValue()));}
+      for (; f.HasData(); f++) {if (out.size() > 1000) {err = "forward iteration does not end"; return false;} out.push_back(std::make_pair((int) MK(KI(f.GetKey())), VI(f.GetValue())));}
       if (t.GetNumItems() != out.size()+(B ? P : 0)) {snprintf(buf, sizeof(buf), "GetNumItems() = %u but forward iteration finds %zu", t.GetNumItems(), out.size()+(B ? P : 0)); err = buf; return false;}
       size_t i = out.size();
-      HashtableIterator<int,int,HashF> r(t, HTIT_FLAG_NOREGISTER|HTIT_FLAG_BACKWARDS);
-      for (; (r.HasData())&&(i > 0); r++) {i--; if ((MK(r.GetKey()) != out[i].first)||(r.GetValue() != out[i].second)) {snprintf(buf, sizeof(buf), "backward iteration differs from forward iteration at index %zu (%ld vs %d)", i, MK(r.GetKey()), out[i].first); err = buf; return false;}}
+      It r(t, HTIT_FLAG_NOREGISTER|HTIT_FLAG_BACKWARDS);
+      for (; (r.HasData())&&(i > 0); r++) {i--; if ((MK(KI(r.GetKey())) != out[i].first)||(VI(r.GetValue()) != out[i].second)) {snprintf(buf, sizeof(buf), "backward iteration differs from forward iteration at index %zu (%ld vs %d)", i, MK(KI(r.GetKey())), out[i].first); err = buf; return false;}}
       if (i > 0) {err = "backward iteration ends early"; return false;}
       if (B) {
          const uint32 lim = full ? P : 1;
-         for (uint32 j=0; j<lim; j++) {if ((!r.HasData())||(r.GetKey() != -1-(int) j)) {snprintf(buf, sizeof(buf), "prefill block damaged at its entry %u from the end (backward)", j); err = buf; return false;} r++;}
+         for (uint32 j=0; j<lim; j++) {if ((!r.HasData())||(KI(r.GetKey()) != -1-(int) j)) {snprintf(buf, sizeof(buf), "prefill block damaged at its entry %u from the end (backward)", j); err = buf; return false;} r++;}
          if ((full)&&(r.HasData())) {err = "backward iteration does not end at the head"; return false;}
       }
       else if (r.HasData()) {err = "backward iteration longer than forward iteration"; return false;}
@@ -232,7 +299,7 @@ template<class TableT, class HashF> struct Rig
    {
       ItObs o; if (it[i] == NULL) return o;
       if (!it[i]->HasData()) {o.h = 0; return o;}
-      o.h = 1; o.k = (int) MK(it[i]->GetKey()); o.v = it[i]->GetValue();
+      o.h = 1; o.k = (int) MK(KI(it[i]->GetKey())); o.v = VI(it[i]->GetValue());
       if ((o.k < 0)&&(itBwd[i])) {o.h = 0; o.k = o.v = 0;}   // parked inside the prefill block = past the head of the model's table
       return o;
    }
@@ -513,18 +580,18 @@ template<class TableT, class HashF> static int Random(const char * outFile, cons
 template<class HashF> static int RunReplay(int cls, char ** argv, uint32 P, uint32 slack, const char * pf)
 {
    switch(cls) {
-      case 0: return Replay<Hashtable<int,int,HashF>, HashF>(argv[2], argv[3], P, slack, pf);
-      case 1: return Replay<OrderedKeysHashtable<int,int,CompareFunctor<int>,HashF>, HashF>(argv[2], argv[3], P, slack, pf);
-      case 2: return Replay<OrderedValuesHashtable<int,int,CompareFunctor<int>,HashF>, HashF>(argv[2], argv[3], P, slack, pf);
+      case 0: return Replay<Hashtable<KT,VT,HashF>, HashF>(argv[2], argv[3], P, slack, pf);
+      case 1: return Replay<OrderedKeysHashtable<KT,VT,CompareFunctor<KT>,HashF>, HashF>(argv[2], argv[3], P, slack, pf);
+      case 2: return Replay<OrderedValuesHashtable<KT,VT,CompareFunctor<VT>,HashF>, HashF>(argv[2], argv[3], P, slack, pf);
    }
    return 2;
 }
 template<class HashF> static int RunRandom(int cls, char ** argv, uint32 seed, uint32 runs, uint32 nops, uint32 P, uint32 slack, int K, int V, int nIt)
 {
    switch(cls) {
-      case 0: return Random<Hashtable<int,int,HashF>, HashF>(argv[2], argv[3], seed, runs, nops, false, false, P, slack, K, V, nIt);
-      case 1: return Random<OrderedKeysHashtable<int,int,CompareFunctor<int>,HashF>, HashF>(argv[2], argv[3], seed, runs, nops, true, false, P, slack, K, V, nIt);
-      case 2: return Random<OrderedValuesHashtable<int,int,CompareFunctor<int>,HashF>, HashF>(argv[2], argv[3], seed, runs, nops, true, true, P, slack, K, V, nIt);
+      case 0: return Random<Hashtable<KT,VT,HashF>, HashF>(argv[2], argv[3], seed, runs, nops, false, false, P, slack, K, V, nIt);
+      case 1: return Random<OrderedKeysHashtable<KT,VT,CompareFunctor<KT>,HashF>, HashF>(argv[2], argv[3], seed, runs, nops, true, false, P, slack, K, V, nIt);
+      case 2: return Random<OrderedValuesHashtable<KT,VT,CompareFunctor<VT>,HashF>, HashF>(argv[2], argv[3], seed, runs, nops, true, true, P, slack, K, V, nIt);
    }
    return 2;
 }
@@ -536,7 +603,7 @@ int main(int argc, char ** argv)
       const int h = atoi(argv[4]); const uint32 P = (uint32) atol(argv[5]), slack = (uint32) atol(argv[6]); const char * pf = (argc > 7) ? argv[7] : NULL; const int cls = (argc > 8) ? atoi(argv[8]) : 0;
       if (h >= 4) KOFF = 1621770656;
       switch(h%4) {
-         case 0: return RunReplay<PODHashFunctor<int> >(cls, argv, P, slack, pf);
+         case 0: return RunReplay<DefHash>(cls, argv, P, slack, pf);
          case 1: return RunReplay<BadHash>(cls, argv, P, slack, pf);
          case 2: return RunReplay<EdgeHash>(cls, argv, P, slack, pf);
          case 3: return (cls == 0) ? RunReplay<ModHash>(0, argv, P, slack, pf) : 2;
@@ -547,7 +614,7 @@ int main(int argc, char ** argv)
       const uint32 P = (uint32) atol(argv[9]), slack = (uint32) atol(argv[10]); const int K = atoi(argv[11]), V = atoi(argv[12]), nIt = muscleMin(atoi(argv[13]), MAXIT);
       if (h >= 4) KOFF = 1621770656;
       switch(h%4) {
-         case 0: return RunRandom<PODHashFunctor<int> >(cls, argv, seed, runs, nops, P, slack, K, V, nIt);
+         case 0: return RunRandom<DefHash>(cls, argv, seed, runs, nops, P, slack, K, V, nIt);
          case 1: return RunRandom<BadHash>(cls, argv, seed, runs, nops, P, slack, K, V, nIt);
          case 2: return RunRandom<EdgeHash>(cls, argv, seed, runs, nops, P, slack, K, V, nIt);
          case 3: return (cls == 0) ? RunRandom<ModHash>(0, argv, seed, runs, nops, P, slack, K, V, nIt) : 2;
